@@ -37,8 +37,8 @@ REQUIRED_FUNCS = ["sempler/utils.py:topological_ordering", "sempler/utils.py:is_
 REQUIRED_COUNTERS = {"quick": {"oracle:cyclic": 100, "oracle:acyclic": 100, "ctor:LGANM": 50, "ctor:ANM": 50, "ctor:DRFNet": 20},
                      "thorough": {"oracle:cyclic": 1000, "oracle:acyclic": 1000, "ctor:LGANM": 500, "ctor:ANM": 500, "ctor:DRFNet": 100}}
 
-N_ADV = {"quick": 24000, "thorough": 300000}
-N_CTOR = {"quick": 2400, "thorough": 30000}
+N_ADV = {"quick": 24000, "thorough": 3000000}
+N_CTOR = {"quick": 2400, "thorough": 300000}
 
 
 def ternary_matrix(p, code, dtype):
